@@ -40,12 +40,68 @@ Proof.
   - rewrite class_name_big by exact L. repeat constructor.
 Qed.
 
+Lemma small_w_cstr s : (forall bs, s = Some bs -> small bs) -> small (w_cstr s).
+Proof.
+  intro H. destruct s as [bs|]; cbn [w_cstr].
+  - apply small_app. split; [repeat constructor|]. apply small_w_str. now apply H.
+  - repeat constructor.
+Qed.
+
+Lemma small_enc_ptr F safe t : small (enc_ptr F safe t).
+Proof. unfold enc_ptr. apply small_rec, small_le_encode. Qed.
+
+Lemma small_enc_ptrs F ts : small (enc_ptrs F ts).
+Proof.
+  induction ts as [|t r IH]; cbn [enc_ptrs]; [constructor|].
+  apply small_app. split; [apply small_enc_ptr|exact IH].
+Qed.
+
+Lemma small_u32 v : small (u32 v).
+Proof. unfold u32. apply small_rec, small_le_encode. Qed.
+
+Lemma small_enc_new F hid c : small c -> small (enc_new F hid c).
+Proof.
+  intro H. unfold enc_new. apply small_app. split; [repeat constructor|].
+  apply small_app. split; [apply small_rec, small_le_encode|exact H].
+Qed.
+
+Lemma small_enc_tbody F b : wf_body b = true -> small (enc_tbody F b).
+Proof.
+  destruct b as [|bs|k v|s|k x|hid rc tl thr tli count|hid rc size|pid ts|k [hid|]|bs]; cbn [enc_tbody wf_body]; intro H.
+  - constructor.
+  - now apply small_w_str, small_wf_bytes.
+  - apply small_rec, small_le_encode.
+  - apply small_w_cstr. intros bs ->. now apply small_wf_bytes.
+  - apply small_enc_ptr.
+  - apply small_enc_new. repeat (apply small_app; split; [apply small_u32|]). apply small_rec, small_le_encode.
+  - apply small_enc_new. apply small_app. split; apply small_u32.
+  - apply small_enc_new. apply small_app. split; [apply small_u32|apply small_enc_ptrs].
+  - apply small_app. split; [repeat constructor|apply small_enc_ptr].
+  - constructor.
+  - apply andb_true_iff in H as [H _]. apply small_wf_bytes in H.
+    repeat (apply small_app; split; [now apply small_rec|]). now apply small_rec.
+Qed.
+
+Lemma small_enc_toks F ts : forallb (fun t => wf_body (t_body t)) ts = true -> small (enc_toks F ts).
+Proof.
+  induction ts as [|t r IH]; cbn [forallb enc_toks]; intro H; [constructor|].
+  apply andb_true_iff in H as [H1 H2]. apply small_app. split; [|now apply IH].
+  unfold enc_tok. apply small_app. split; [apply small_rec, small_le_encode|].
+  apply small_app. split; [|now apply small_enc_tbody].
+  apply small_rec. constructor; [|constructor].
+  destruct (t_body t) as [|bs|[]|s|[]|hid rc tl thr tli count|hid rc size|pid ts|[]|bs]; vm_compute; reflexivity.
+Qed.
+
 Lemma small_enc_leaf F l : wf_leaf l = true -> small (enc_leaf F l).
 Proof.
-  destruct l as [k v|bs|bs|s [t|]|id]; cbn [enc_leaf wf_leaf]; intro H;
+  destruct l as [k v|bs|bs|s [t|]|id|key toks]; cbn [enc_leaf wf_leaf]; intro H;
     try (apply small_rec, small_le_encode).
   - now apply small_rec, small_wf_bytes.
-  - now apply small_w_str, small_wf_cstr.
+  - now apply small_w_str, small_wf_bytes.
+  - apply andb_true_iff in H as [H _]. apply andb_true_iff in H as [Hk Hb].
+    apply small_app. split; [|now apply small_enc_toks].
+    destruct key as [k|]; cbn [w_key]; [|constructor].
+    apply small_w_cstr. intros bs ->. now apply small_wf_bytes.
 Qed.
 
 Lemma small_enc_leaves F ls : forallb wf_leaf ls = true -> small (enc_leaves F ls).
@@ -99,7 +155,7 @@ Proof.
   intro Hwf. pose proof Hwf as H. unfold wf_case, wf_hdr, wf_items in H.
   repeat match goal with Hx : (_ && _) = true |- _ => apply andb_true_iff in Hx; destruct Hx end.
   repeat match goal with Hx : (_ <? _) = true |- _ => apply N.ltb_lt in Hx end.
-  destruct (write_as_enc h its) as (F & Hw & Hin & Hlen).
+  destruct (write_as_enc h its) as (F & Hw & Hin & Hlen); [assumption|].
   pose proof (count_le_size_items its) as Hc.
   exists F. constructor; try assumption.
   - now apply items_ok.
